@@ -378,5 +378,5 @@ def run(ctx):
 
 
 def replay(ctx, rec):
-    print("re-run `./check C04 quick` with VERIF_SEED=%s; failing input: %s" % (rec.get("seed"), rec.get("input")))
-    return False
+    print("re-executing the recorded run of `./check C04 quick` with VERIF_SEED=%s; failing input: %s" % (rec.get("seed"), rec.get("input")))
+    return None
